@@ -8,7 +8,7 @@
 # @author Davide Brunato <brunato@sissa.it>
 #
 import json
-from copy import copy
+from copy import copy, deepcopy
 from collections.abc import Iterator, Iterable
 from decimal import Decimal
 from types import ModuleType
@@ -300,6 +300,20 @@ def serialize_to_xml(elements: Iterable[Any],
                 # the tail is not part of the element: serialize a copy without it
                 elem = copy(elem)
                 elem.tail = None
+            cr_mark = None
+            if method == 'xml' and etree_module is ElementTree and \
+                    any('\r' in (e.tail or '') or not callable(e.tag) and '\r' in (e.text or '')
+                        for e in elem.iter()):
+                # ElementTree writes U+000D raw in character data and parsers turn it into U+000A:
+                # mark it in a copy and write the character reference after serialization
+                elem = deepcopy(elem)
+                used = {c for e in elem.iter() for t in (e.text, e.tail, *e.attrib.values()) if t for c in t}
+                cr_mark = next(chr(c) for c in range(0xE000, 0xF8FF) if chr(c) not in used)
+                for e in elem.iter():
+                    if e.tail:
+                        e.tail = e.tail.replace('\r', cr_mark)
+                    if e.text and not callable(e.tag):
+                        e.text = e.text.replace('\r', cr_mark)
         elif isinstance(item, (AttributeNode, NamespaceNode)):
             raise xpath_error('SENR0001', token=token)
         elif isinstance(item, TextNode):
@@ -332,6 +346,8 @@ def serialize_to_xml(elements: Iterable[Any],
                 head, sep, rest = cks[0].partition(b'?>')
                 cks[0] = head.replace(b'\'', b'"') + sep + rest
             chunks.append(b''.join(cks).decode('utf-8'))
+        if cr_mark is not None:
+            chunks[-1] = chunks[-1].replace(cr_mark, '&#13;')
 
     if not character_map:
         return (item_separator or '').join(chunks)
